@@ -734,7 +734,7 @@ def _hash_array(a, rng, slot_const, prefolded_hash=None):
 
 def _sink(a, rng, allow_value_side=False, with_real=None):
     """Consumes the top of the stack in a way that is not a storage *key*."""
-    sinks = ["pop", "mstore", "log", "return", "call-arg", "revert", "eq-jumpi"]
+    sinks = ["pop", "mstore", "log", "return", "call-arg", "revert", "eq-jumpi", "later-fork-opcode"]
     if allow_value_side:
         sinks += ["sstore-value"]
     if with_real is not None:
@@ -754,6 +754,10 @@ def _sink(a, rng, allow_value_side=False, with_real=None):
         a.emit(0x80, "MSTORE", 0, 0, 0x20, 0x80, 0, "CALLER", "GAS", "CALL", "POP")
     elif s == "eq-jumpi":
         a.emit("CALLVALUE", "EQ", "POP")
+    elif s == "later-fork-opcode":
+        # bytes that are not instructions in the fork the tool models (transient storage, MCOPY, blob opcodes, plain
+        # unassigned ones): with the value as an operand they must not turn into storage accesses
+        a.emit("CALLVALUE", "SWAP1", bytes([rng.choice([0x5c, 0x5d, 0x5d, 0x5e, 0x49, 0x4a, 0x0c, 0xb0, 0xf6])]))
     elif s == "sstore-value":
         a.emit(0x40 + rng.randrange(4), "SSTORE")
     elif s == "cmp-with-sload":
@@ -1199,6 +1203,38 @@ def near_limit_operands(rng, limit):
             a.emit(0x40, "MSTORE", 0x40, "MLOAD", rng.choice([["POP"], [2, "SSTORE"]]))
     a.emit("STOP")
     return a.assemble(), feats
+
+
+DEEP_CHAIN_OPS = ["ADD", "MUL", "SUB", "DIV", "SDIV", "MOD", "SMOD", "EXP", "SIGNEXTEND", "LT", "GT", "SLT", "SGT", "EQ",
+                  "AND", "OR", "XOR", "BYTE", "SHL", "SHR", "SAR", "ISZERO", "NOT", "SHA3", "BALANCE", "SLOAD",
+                  "MLOAD", "CALLDATALOAD", "EXTCODEHASH", "BLOCKHASH", "ADDMOD", "MULMOD"]
+DEEP_CHAIN_SHAPES = ["const-top", "const-below", "self"]
+
+
+def deep_chain(rng, op=None, shape=None, n=None):
+    """One operator applied to its own result thousands of times in a straight line (x = op(c, x) or op(x, c) or
+    op(x, x)), then stored: whatever keeps value trees shallow is exercised at depth. Returns (code, feats)."""
+    a = evm.Asm()
+    op = op or rng.choice(DEEP_CHAIN_OPS)
+    n = n or rng.choice([300, 2000, 12000, 30000, 30000, 50000])
+    shape = shape or rng.choice(DEEP_CHAIN_SHAPES)
+    a.emit(rng.choice(["CALLVALUE", [0, "CALLDATALOAD"], "CALLER"]))
+    c = rng.choice([0, 1, 2, 31, 255])
+    if op in ("ISZERO", "NOT", "BALANCE", "SLOAD", "MLOAD", "CALLDATALOAD", "EXTCODEHASH", "BLOCKHASH"):
+        step = evm.asm(op)
+    elif op == "SHA3":
+        step = evm.asm(0, "MSTORE", 0x20, 0, "SHA3")
+    elif op in ("ADDMOD", "MULMOD"):
+        step = evm.asm("DUP1", c, op)
+    elif shape == "const-top":
+        step = evm.asm(c if c else ("push", 0, 1), op)
+    elif shape == "const-below":
+        step = evm.asm(c if c else ("push", 0, 1), "SWAP1", op)
+    else:
+        step = evm.asm("DUP1", op)
+    a.emit(step * n)
+    a.emit(rng.choice([[0, "SSTORE"], [0, "MSTORE"], ["POP"], [0, "MSTORE", 0x20, 0, "RETURN"]]), "STOP")
+    return a.assemble(), {"deep-chain", "chain:" + op, "chain-shape:" + shape}
 
 
 def every_producer(rng):
